@@ -10,8 +10,6 @@ CONSTANTS
   AlgVariant = "ok"
   Export = TRUE
 INVARIANT ModelCovered
-INVARIANT ModelWithItsRow
-INVARIANT ModelPermutationInvariant
 INVARIANT ModelBetween
 INVARIANT FitsInv
 CONSTRAINT Emit
